@@ -1,7 +1,9 @@
 (* C07 second tier: compile_always_checks over the shared compiler port Model/Compile.v
    (tied to the real compiler by C03's `compile` correspondence family): for every
-   well-formed statement list — break/continue only inside a for body and not across a capture,
-   the side condition the parser enforces (Model/Compile.v wf_stmt) — the compiled chunk has a
+   statement list with break/continue only inside a for body and not across a capture —
+   the side condition the parser enforces (Model/Compile.v brk_stmt; implied by wf_stmt) — and
+   ANY expressions of the port (operators, ternary, subscripts, slices, optional chaining,
+   function calls, array / map literals with spreads, filters, tests) the compiled chunk has a
    table that check_table accepts. By induction on expressions and statements with the
    invariant "a statement placed at position p leaves the abstract state (value stack, loop
    stack, capture count) as it found it; an expression pushes one slot". *)
@@ -104,6 +106,120 @@ Proof.
     + cbn [length]. lia.
 Qed.
 
+(* an optional slice operand: the expression, or the constant loaded in its place *)
+Lemma opt_frag (o : option expr) (d : value) :
+  match o with Some x => EF x | None => True end ->
+  forall p a ext, exists sg,
+    Frag p (match o with Some x => compile_expr p x | None => [LoadConst d] end) sg a (pushA TAny a) ext.
+Proof.
+  intros H p a ext. destruct o as [x|]; [apply H|].
+  exists [a]. apply (F_step p _ a (pushA (ty_of_value d) a)); [destruct a; reflexivity|apply sub_push_any].
+Qed.
+
+(* n pushed slots *)
+Fixpoint pushN (n : nat) (a : astate) : astate :=
+  match n with O => a | S k => pushN k (pushA TAny a) end.
+
+Lemma pushN_shape n : forall a, a_loops (pushN n a) = a_loops a /\ a_caps (pushN n a) = a_caps a.
+Proof. induction n as [|n IH]; intros a; [auto|]. cbn [pushN]. destruct (IH (pushA TAny a)). auto. Qed.
+
+Lemma pushN_drop n : forall a, drop n (a_stack (pushN n a)) = Some (a_stack a).
+Proof.
+  induction n as [|n IH]; intros a; [reflexivity|]. cbn [pushN].
+  replace (S n) with (n + 1) by lia. rewrite (drop_add _ 1 _ _ (IH _)). reflexivity.
+Qed.
+
+Lemma astep_buildlist n p a r : drop n (a_stack a) = Some r ->
+  astep (BuildList n) p a = Some [(S p, mkA (TArr :: r) (a_loops a) (a_caps a))].
+Proof. intros H. unfold astep. rewrite H. reflexivity. Qed.
+
+Lemma astep_buildlist_sp fl p a r : drop (length fl) (a_stack a) = Some r ->
+  astep (BuildListWithSpreads fl) p a = Some [(S p, mkA (TArr :: r) (a_loops a) (a_caps a))].
+Proof. intros H. unfold astep, need_list. rewrite H. reflexivity. Qed.
+
+Lemma astep_buildmap_sp fl p a r : drop (need_map fl) (a_stack a) = Some r ->
+  astep (BuildMapWithSpreads fl) p a = Some [(S p, mkA (TMap :: r) (a_loops a) (a_caps a))].
+Proof. intros H. unfold astep. rewrite H. reflexivity. Qed.
+
+Lemma compile_items_cons' p sp e t :
+  compile_items compile_expr p ((sp, e) :: t) =
+  compile_expr p e ++ compile_items compile_expr (p + length (compile_expr p e)) t.
+Proof. reflexivity. Qed.
+
+Lemma items_frag items : Forall (fun ie => EF (snd ie)) items ->
+  forall p a ext, exists sg, Frag p (compile_items compile_expr p items) sg a (pushN (length items) a) ext.
+Proof.
+  induction 1 as [|[sp e] t He _ IH]; intros p a ext.
+  - exists []. apply F_nil.
+  - cbn [snd] in He. rewrite compile_items_cons'. cbn [length pushN].
+    destruct (He p a ext) as (s1 & F1).
+    destruct (IH (p + length (compile_expr p e)) (pushA TAny a) ext) as (s2 & F2).
+    exists (s1 ++ s2). eapply F_seq; [exact F1|exact F2|reflexivity|reflexivity].
+Qed.
+
+(* the state after the entries of a map literal: two slots per pair, one per spread *)
+Fixpoint entst (es : list (option value * expr)) (a : astate) : astate :=
+  match es with
+  | [] => a
+  | (Some _, _) :: t => entst t (pushA TAny (pushA TAny a))
+  | (None, _) :: t => entst t (pushA TAny a)
+  end.
+
+Lemma entst_shape es : forall a, a_loops (entst es a) = a_loops a /\ a_caps (entst es a) = a_caps a.
+Proof.
+  induction es as [|[[k|] e] t IH]; intros a; [auto| |]; cbn [entst].
+  - destruct (IH (pushA TAny (pushA TAny a))). auto.
+  - destruct (IH (pushA TAny a)). auto.
+Qed.
+
+Lemma need_map_cons b fl : need_map (b :: fl) = (if b then 1 else 2) + need_map fl.
+Proof. reflexivity. Qed.
+
+Lemma entst_drop es : forall a, drop (need_map (map is_spread es)) (a_stack (entst es a)) = Some (a_stack a).
+Proof.
+  induction es as [|[[k|] e] t IH]; intros a; [reflexivity| |]; cbn [entst map]; rewrite need_map_cons;
+    unfold is_spread at 1; cbn [fst].
+  - replace (2 + need_map (map is_spread t)) with (need_map (map is_spread t) + 2) by lia.
+    rewrite (drop_add _ 2 _ _ (IH _)). reflexivity.
+  - replace (1 + need_map (map is_spread t)) with (need_map (map is_spread t) + 1) by lia.
+    rewrite (drop_add _ 1 _ _ (IH _)). reflexivity.
+Qed.
+
+Lemma need_map_nospread es : existsb is_spread es = false -> need_map (map is_spread es) = 2 * length es.
+Proof.
+  induction es as [|x t IH]; [reflexivity|]. cbn [existsb map length]. intros H.
+  apply orb_false_elim in H as [H1 H2]. rewrite need_map_cons, H1, (IH H2). lia.
+Qed.
+
+Lemma compile_entries_some' p k e t :
+  compile_entries compile_expr p ((Some k, e) :: t) =
+  (LoadConst k :: compile_expr (S p) e)
+  ++ compile_entries compile_expr (p + length (LoadConst k :: compile_expr (S p) e)) t.
+Proof. reflexivity. Qed.
+Lemma compile_entries_none' p e t :
+  compile_entries compile_expr p ((None, e) :: t) =
+  compile_expr p e ++ compile_entries compile_expr (p + length (compile_expr p e)) t.
+Proof. reflexivity. Qed.
+
+Lemma entries_frag es : Forall (fun ke => EF (snd ke)) es ->
+  forall p a ext, exists sg, Frag p (compile_entries compile_expr p es) sg a (entst es a) ext.
+Proof.
+  induction 1 as [|[[k|] e] t He _ IH]; intros p a ext.
+  - exists []. apply F_nil.
+  - cbn [snd] in He. rewrite compile_entries_some'. cbn [entst].
+    destruct (He (S p) (pushA TAny a) ext) as (s1 & F1).
+    destruct (IH (p + length (LoadConst k :: compile_expr (S p) e)) (pushA TAny (pushA TAny a)) ext) as (s2 & F2).
+    exists (([a] ++ s1) ++ s2).
+    eapply F_seq; [|exact F2|reflexivity|reflexivity].
+    eapply (F_seq p [LoadConst k] _ _ _ (compile_expr (S p) e)); [|exact F1| |reflexivity].
+    + apply (F_step p _ a (pushA (ty_of_value k) a)); [destruct a; reflexivity|apply sub_push_any].
+    + cbn [length]. lia.
+  - cbn [snd] in He. rewrite compile_entries_none'. cbn [entst].
+    destruct (He p a ext) as (s1 & F1).
+    destruct (IH (p + length (compile_expr p e)) (pushA TAny a) ext) as (s2 & F2).
+    exists (s1 ++ s2). eapply F_seq; [exact F1|exact F2|reflexivity|reflexivity].
+Qed.
+
 Theorem expr_frag : forall e, EF e.
 Proof.
   induction e using expr_ind'; intros p a0 ext.
@@ -166,6 +282,97 @@ Proof.
       rewrite (astep_buildmap _ _ _ _ (kwst_drop kw (pushA TAny a0))).
       destruct (kwst_shape kw (pushA TAny a0)) as [E1 E2]. unfold ak. rewrite ?E1, ?E2. subst ak. rewrite ?E1, ?E2. reflexivity.
     + apply (F_step _ _ _ (pushA TAny a0)); [destruct a0; reflexivity|apply astate_sub_refl].
+  - (* binary operator *) cbn [compile_expr].
+    destruct (IHe1 p a0 ext) as (s1 & F1).
+    destruct (IHe2 (p + length (compile_expr p e1)) (pushA TAny a0) ext) as (s2 & F2).
+    exists (s1 ++ s2 ++ [pushA TAny (pushA TAny a0)]).
+    eapply F_seq; [exact F1| |reflexivity|reflexivity].
+    eapply F_seq; [exact F2| |reflexivity|reflexivity].
+    apply (F_step _ _ _ (pushA TAny a0)); [destruct a0, op; reflexivity|apply astate_sub_refl].
+  - (* unary minus *) destruct (IHe p a0 ext) as (s1 & F1). exists (s1 ++ [pushA TAny a0]).
+    eapply F_seq; [exact F1| |reflexivity|reflexivity].
+    apply (F_step _ _ _ (pushA TAny a0)); [destruct a0; reflexivity|apply astate_sub_refl].
+  - (* ternary *) cbn [compile_expr].
+    set (cc := compile_expr p e1). set (b1 := p + length cc + 1).
+    set (ca := compile_expr b1 e2). set (b2 := b1 + length ca + 1).
+    set (cb := compile_expr b2 e3). set (tend := b2 + length cb).
+    set (a1 := pushA TAny a0).
+    set (ext' := (tend, a1) :: (b2, a0) :: ext).
+    destruct (IHe1 p a0 ext') as (s1 & F1). fold cc in F1.
+    destruct (IHe2 b1 a0 ext') as (s2 & F2). fold ca in F2.
+    destruct (IHe3 b2 a0 ext') as (s3 & F3). fold cb in F3.
+    exists ((s1 ++ [a1] ++ s2 ++ [a1]) ++ s3).
+    assert (FA : Frag p (cc ++ [PopJumpIfFalse b2] ++ ca ++ [Jump tend] ++ cb)
+                      ((s1 ++ [a1] ++ s2 ++ [a1]) ++ s3) a0 a1 ext').
+    { eapply (F_seq p (cc ++ [PopJumpIfFalse b2] ++ ca ++ [Jump tend]) _ _ a0 cb _ _ _ b2); [|exact F3| |].
+      - eapply F_seq; [exact F1| |reflexivity|reflexivity].
+        eapply (F_seq _ [PopJumpIfFalse b2] _ _ a0 (ca ++ [Jump tend]) _ _ _ b1); [| |unfold b1; cbn [length]; lia|reflexivity].
+        + apply (F_branch _ _ _ a0 b2 a0); [destruct a0; reflexivity|apply astate_sub_refl|right; left; reflexivity].
+        + eapply (F_seq _ ca _ _ a1 [Jump tend]); [exact F2| |reflexivity|reflexivity].
+          apply (F_goto _ _ _ tend a1); [reflexivity|left; reflexivity].
+      - unfold b2, b1. rewrite !app_length. cbn [length]. lia.
+      - rewrite <- !app_assoc. reflexivity. }
+    apply (F_resolve _ _ _ _ _ ext' ext FA). intros l [<-|[<-|Hin]]; [right|right|left; exact Hin].
+    * apply (resolved_end _ _ _ _ _ _ _ _ FA); [|apply astate_sub_refl].
+      unfold tend, b2, b1. rewrite !app_length. cbn [length]. lia.
+    * apply resolved_last; [exact (proj1 (proj2 F3))|].
+      destruct F1 as (L1 & _). destruct F2 as (L2 & _).
+      unfold b2, b1. rewrite !app_length. cbn [length]. rewrite L1, L2. lia.
+  - (* optional attribute *) destruct (IHe p a0 ext) as (s1 & F1). exists (s1 ++ [pushA TAny a0]).
+    eapply F_seq; [exact F1| |reflexivity|reflexivity].
+    apply (F_step _ _ _ (pushA TAny a0)); [destruct a0; reflexivity|apply astate_sub_refl].
+  - (* subscript *) cbn [compile_expr].
+    destruct (IHe1 p a0 ext) as (s1 & F1).
+    destruct (IHe2 (p + length (compile_expr p e1)) (pushA TAny a0) ext) as (s2 & F2).
+    exists (s1 ++ s2 ++ [pushA TAny (pushA TAny a0)]).
+    eapply F_seq; [exact F1| |reflexivity|reflexivity].
+    eapply F_seq; [exact F2| |reflexivity|reflexivity].
+    apply (F_step _ _ _ (pushA TAny a0)); [destruct a0, opt; reflexivity|apply astate_sub_refl].
+  - (* slice *) cbn [compile_expr].
+    destruct (IHe p a0 ext) as (s1 & F1).
+    set (c1 := compile_expr p e) in *. set (q1 := p + length c1).
+    destruct (opt_frag sa VNone H q1 (pushA TAny a0) ext) as (s2 & F2).
+    set (ca := match sa with Some x => compile_expr q1 x | None => [LoadConst VNone] end) in *.
+    set (q2 := q1 + length ca).
+    destruct (opt_frag sb VNone H0 q2 (pushA TAny (pushA TAny a0)) ext) as (s3 & F3).
+    set (cb := match sb with Some x => compile_expr q2 x | None => [LoadConst VNone] end) in *.
+    set (q3 := q2 + length cb).
+    destruct (opt_frag sc (VInt I64 1) H1 q3 (pushA TAny (pushA TAny (pushA TAny a0))) ext) as (s4 & F4).
+    exists (s1 ++ s2 ++ s3 ++ s4 ++ [pushA TAny (pushA TAny (pushA TAny (pushA TAny a0)))]).
+    eapply F_seq; [exact F1| |reflexivity|reflexivity].
+    eapply F_seq; [exact F2| |reflexivity|reflexivity].
+    eapply F_seq; [exact F3| |reflexivity|reflexivity].
+    eapply F_seq; [exact F4| |reflexivity|reflexivity].
+    apply (F_step _ _ _ (pushA TAny a0)); [destruct a0, opt; reflexivity|apply astate_sub_refl].
+  - (* function call *) cbn [compile_expr].
+    destruct (kws_frag kw H p a0 ext) as (s2 & F2).
+    exists (s2 ++ [kwst kw a0] ++ [pushA TMap a0]).
+    eapply F_seq; [exact F2| |reflexivity|reflexivity].
+    eapply (F_seq _ [BuildMap (length kw)] _ _ _ [CallFunction n]); [| |reflexivity|reflexivity].
+    + apply (F_step _ _ _ (pushA TMap a0)); [|apply astate_sub_refl].
+      rewrite (astep_buildmap _ _ _ _ (kwst_drop kw a0)).
+      destruct (kwst_shape kw a0) as [E1 E2]. rewrite E1, E2. reflexivity.
+    + apply (F_step _ _ _ (pushA TAny a0)); [destruct a0; reflexivity|apply astate_sub_refl].
+  - (* array literal *) cbn [compile_expr].
+    destruct (items_frag items H p a0 ext) as (s1 & F1).
+    exists (s1 ++ [pushN (length items) a0]).
+    eapply F_seq; [exact F1| |reflexivity|reflexivity].
+    apply (F_step _ _ _ (pushA TArr a0)); [|apply sub_push_any].
+    destruct (pushN_shape (length items) a0) as [E1 E2].
+    destruct (existsb fst items).
+    + rewrite (astep_buildlist_sp _ _ _ (a_stack a0)); [rewrite E1, E2; reflexivity|].
+      rewrite map_length. apply pushN_drop.
+    + rewrite (astep_buildlist _ _ _ (a_stack a0)); [rewrite E1, E2; reflexivity|]. apply pushN_drop.
+  - (* map literal *) cbn [compile_expr].
+    destruct (entries_frag es H p a0 ext) as (s1 & F1).
+    exists (s1 ++ [entst es a0]).
+    eapply F_seq; [exact F1| |reflexivity|reflexivity].
+    apply (F_step _ _ _ (pushA TMap a0)); [|apply sub_push_any].
+    destruct (entst_shape es a0) as [E1 E2].
+    destruct (existsb is_spread es) eqn:Es.
+    + rewrite (astep_buildmap_sp _ _ _ _ (entst_drop es a0)), E1, E2. reflexivity.
+    + rewrite (astep_buildmap _ _ _ (a_stack a0)); [rewrite E1, E2; reflexivity|].
+      rewrite <- (need_map_nospread es Es). apply entst_drop.
 Qed.
 
 (* ---------- keyword arguments and filter chains ---------- *)
@@ -215,7 +422,7 @@ Lemma Ctx_false lp a ext : Ctx false lp a ext.
 Proof. intros H. discriminate. Qed.
 
 Definition SF (s : stmt) : Prop :=
-  forall okn lex brk, wf_stmt okn lex brk s = true ->
+  forall brk, brk_stmt brk s = true ->
   forall p lp a ext, Ctx brk lp a ext -> exists sg, Frag p (compile_node p lp s) sg a a ext.
 
 Lemma compile_seq_cons' p lp s t :
@@ -224,15 +431,15 @@ Lemma compile_seq_cons' p lp s t :
 Proof. reflexivity. Qed.
 
 Lemma seq_frag body : Forall SF body ->
-  forall okn lex brk, forallb (wf_stmt okn lex brk) body = true ->
+  forall brk, forallb (brk_stmt brk) body = true ->
   forall p lp a ext, Ctx brk lp a ext ->
   exists sg, Frag p (compile_seq compile_node p lp body) sg a a ext.
 Proof.
-  induction 1 as [|s t Hs _ IH]; intros okn lex brk Hwf p lp a ext HC.
+  induction 1 as [|s t Hs _ IH]; intros brk Hwf p lp a ext HC.
   - exists []. apply F_nil.
   - cbn [forallb] in Hwf. apply andb_prop in Hwf as [H1 H2]. rewrite compile_seq_cons'.
-    destruct (Hs okn lex brk H1 p lp a ext HC) as (s1 & F1).
-    destruct (IH okn lex brk H2 (p + length (compile_node p lp s)) lp a ext HC) as (s2 & F2).
+    destruct (Hs brk H1 p lp a ext HC) as (s1 & F1).
+    destruct (IH brk H2 (p + length (compile_node p lp s)) lp a ext HC) as (s2 & F2).
     exists (s1 ++ s2). eapply F_seq; [exact F1|exact F2|reflexivity|reflexivity].
 Qed.
 
@@ -251,7 +458,7 @@ Qed.
 (* target; StartIterate; StoreLocal..; Iterate; body; Jump — everything of a for loop up to its
    end target, with break / continue / the Iterate exit resolved *)
 Lemma for_head body : Forall SF body ->
-  forall okn, forallb (wf_stmt okn true true) body = true ->
+  forallb (brk_stmt true) body = true ->
   forall (key : option str) (val : str) (target : expr) p a ext0,
   let ct := compile_expr p target in
   let hdr := [StartIterate (is_some key); StoreLocal val] ++ match key with Some k => [StoreLocal k] | None => [] end in
@@ -260,12 +467,12 @@ Lemma for_head body : Forall SF body ->
   let lend := S start + length cb + 1 in
   exists sg, Frag p (ct ++ hdr ++ [Iterate lend] ++ cb ++ [Jump start]) sg a (itA a) ext0.
 Proof.
-  intros Hb okn Hwb key val target p a ext0 ct hdr start cb lend.
+  intros Hb Hwb key val target p a ext0 ct hdr start cb lend.
   set (a_it := itA a). set (a_b := bodyA lend a).
   set (extL := (start, a_b) :: (lend, a_b) :: (lend, a_it) :: ext0).
   assert (HC : Ctx true (Some start) a_b extL).
   { intros _. exists start, lend, (a_loops a). repeat split; [left; reflexivity|right; left; reflexivity]. }
-  destruct (seq_frag body Hb okn true true Hwb (S start) (Some start) a_b extL HC) as (s_b & Fb). fold cb in Fb.
+  destruct (seq_frag body Hb true Hwb (S start) (Some start) a_b extL HC) as (s_b & Fb). fold cb in Fb.
   (* the loop proper *)
   assert (FL' : Frag start ([Iterate lend] ++ cb ++ [Jump start]) ([a_it] ++ s_b ++ [a_b]) a_it a_it extL).
   { eapply (F_seq start [Iterate lend] _ _ _ (cb ++ [Jump start]) _ _ _ (S start)); [| |cbn [length]; lia|reflexivity].
@@ -295,22 +502,22 @@ Proof.
   eapply F_seq; [exact Fh|exact FL|unfold start; lia|reflexivity].
 Qed.
 
-Lemma wf_if okn lex brk c body els : wf_stmt okn lex brk (SIf c body els) = true ->
-  forallb (wf_stmt okn lex brk) body = true /\ forallb (wf_stmt okn lex brk) els = true.
-Proof. cbn [wf_stmt]. intros H. apply andb_prop in H as [H H2]. apply andb_prop in H as [_ H1]. auto. Qed.
+Lemma wf_if brk c body els : brk_stmt brk (SIf c body els) = true ->
+  forallb (brk_stmt brk) body = true /\ forallb (brk_stmt brk) els = true.
+Proof. cbn [brk_stmt]. intros H. apply andb_prop in H as [H1 H2]. auto. Qed.
 
-Lemma wf_for okn lex brk k v t body els : wf_stmt okn lex brk (SFor k v t body els) = true ->
-  forallb (wf_stmt okn true true) body = true /\ forallb (wf_stmt okn lex brk) els = true.
-Proof. cbn [wf_stmt]. intros H. apply andb_prop in H as [H H2]. apply andb_prop in H as [_ H1]. auto. Qed.
+Lemma wf_for brk k v t body els : brk_stmt brk (SFor k v t body els) = true ->
+  forallb (brk_stmt true) body = true /\ forallb (brk_stmt brk) els = true.
+Proof. cbn [brk_stmt]. intros H. apply andb_prop in H as [H1 H2]. auto. Qed.
 
 Theorem stmt_frag : forall s, SF s.
 Proof.
-  induction s using stmt_ind'; intros okn lex brk Hwf p lp a ext HC.
+  induction s using stmt_ind'; intros brk Hwf p lp a ext HC.
   - (* text *) exists [a]. apply (F_step _ _ _ a); [destruct a; reflexivity|apply astate_sub_refl].
   - (* print *) cbn [compile_node]. destruct (expr_frag e p a ext) as (s1 & F1).
     exists (s1 ++ [pushA TAny a]). eapply (F_seq _ _ _ _ _ [WriteTop]); [exact F1| |reflexivity|reflexivity].
     apply (F_step _ _ _ a); [destruct a; reflexivity|apply astate_sub_refl].
-  - (* if *) destruct (wf_if _ _ _ _ _ _ Hwf) as [Hwb Hwe]. cbn [compile_node].
+  - (* if *) destruct (wf_if _ _ _ _ Hwf) as [Hwb Hwe]. cbn [compile_node].
     set (cc := compile_expr p c). set (b1 := p + length cc + 1).
     set (cb := compile_seq compile_node b1 lp b).
     destruct e as [|e0 els'].
@@ -318,7 +525,7 @@ Proof.
       set (t := b1 + length cb). set (ext' := (t, a) :: ext).
       assert (HC' : Ctx brk lp a ext') by (apply (Ctx_weaken _ _ _ _ _ HC); intros x Hx; right; exact Hx).
       destruct (expr_frag c p a ext') as (s1 & F1). fold cc in F1.
-      destruct (seq_frag b H okn lex brk Hwb b1 lp a ext' HC') as (s2 & F2). fold cb in F2.
+      destruct (seq_frag b H brk Hwb b1 lp a ext' HC') as (s2 & F2). fold cb in F2.
       exists (s1 ++ [pushA TAny a] ++ s2).
       assert (FA : Frag p (cc ++ [PopJumpIfFalse t] ++ cb) (s1 ++ [pushA TAny a] ++ s2) a a ext').
       { eapply F_seq; [exact F1| |reflexivity|reflexivity].
@@ -333,8 +540,8 @@ Proof.
       set (tend := b2 + length ce). set (ext' := (tend, a) :: (b2, a) :: ext).
       assert (HC' : Ctx brk lp a ext') by (apply (Ctx_weaken _ _ _ _ _ HC); intros x Hx; right; right; exact Hx).
       destruct (expr_frag c p a ext') as (s1 & F1). fold cc in F1.
-      destruct (seq_frag b H okn lex brk Hwb b1 lp a ext' HC') as (s2 & F2). fold cb in F2.
-      destruct (seq_frag els H0 okn lex brk Hwe b2 lp a ext' HC') as (s3 & F3). fold ce in F3.
+      destruct (seq_frag b H brk Hwb b1 lp a ext' HC') as (s2 & F2). fold cb in F2.
+      destruct (seq_frag els H0 brk Hwe b2 lp a ext' HC') as (s3 & F3). fold ce in F3.
       exists ((s1 ++ [pushA TAny a] ++ s2 ++ [a]) ++ s3).
       assert (FA : Frag p (cc ++ [PopJumpIfFalse b2] ++ cb ++ [Jump tend] ++ ce)
                         ((s1 ++ [pushA TAny a] ++ s2 ++ [a]) ++ s3) a a ext').
@@ -352,14 +559,14 @@ Proof.
       * apply resolved_last; [exact (proj1 (proj2 F3))|].
         destruct F1 as (L1 & _). destruct F2 as (L2 & _).
         unfold b2, b1. rewrite !app_length. cbn [length]. rewrite L1, L2. lia.
-  - (* for *) destruct (wf_for _ _ _ _ _ _ _ _ Hwf) as [Hwb Hwe]. cbn [compile_node].
+  - (* for *) destruct (wf_for _ _ _ _ _ _ Hwf) as [Hwb Hwe]. cbn [compile_node].
     set (ct := compile_expr p t).
     set (hdr := [StartIterate (is_some k); StoreLocal v] ++ match k with Some k0 => [StoreLocal k0] | None => [] end).
     set (start := p + length ct + length hdr).
     set (cb := compile_seq compile_node (S start) (Some start) b).
     set (lend := S start + length cb + 1).
     destruct e as [|e0 els'].
-    + destruct (for_head b H okn Hwb k v t p a ext) as (s1 & F1).
+    + destruct (for_head b H Hwb k v t p a ext) as (s1 & F1).
       fold ct hdr start cb lend in F1.
       exists (s1 ++ [itA a]).
       eapply (F_seq p (ct ++ hdr ++ [Iterate lend] ++ cb ++ [Jump start]) _ _ (itA a) [PopLoop]); [exact F1| |reflexivity|].
@@ -369,9 +576,9 @@ Proof.
       set (b2 := lend + 3). set (ce := compile_seq compile_node b2 lp els).
       set (tend := b2 + length ce). set (ext' := (tend, a) :: ext).
       assert (HC' : Ctx brk lp a ext') by (apply (Ctx_weaken _ _ _ _ _ HC); intros x Hx; right; exact Hx).
-      destruct (for_head b H okn Hwb k v t p a ext') as (s1 & F1).
+      destruct (for_head b H Hwb k v t p a ext') as (s1 & F1).
       fold ct hdr start cb lend in F1.
-      destruct (seq_frag els H0 okn lex brk Hwe b2 lp a ext' HC') as (s3 & F3). fold ce in F3.
+      destruct (seq_frag els H0 brk Hwe b2 lp a ext' HC') as (s3 & F3). fold ce in F3.
       set (c1 := ct ++ hdr ++ [Iterate lend] ++ cb ++ [Jump start]) in *.
       exists (s1 ++ [itA a] ++ [pushA TAny (itA a)] ++ [pushA TAny a] ++ s3).
       assert (FA : Frag p (c1 ++ [StoreDidNotIterate] ++ [PopLoop] ++ [PopJumpIfFalse tend] ++ ce)
@@ -397,9 +604,9 @@ Proof.
     exists (s1 ++ [pushA TAny a]).
     eapply (F_seq _ _ _ _ _ [if g then SetGlobal n else SetI n]); [exact F1| |reflexivity|reflexivity].
     apply (F_step _ _ _ a); [destruct g, a; reflexivity|apply astate_sub_refl].
-  - (* set block *) cbn [wf_stmt] in Hwf. apply andb_prop in Hwf as [Hwb _]. cbn [compile_node].
+  - (* set block *) cbn [brk_stmt] in Hwf. pose proof Hwf as Hwb. cbn [compile_node].
     set (cb := compile_seq compile_node (S p) lp b). set (b1 := S p + length cb + 1).
-    destruct (seq_frag b H okn lex false Hwb (S p) lp (capA a) ext (Ctx_false _ _ _)) as (s2 & F2). fold cb in F2.
+    destruct (seq_frag b H false Hwb (S p) lp (capA a) ext (Ctx_false _ _ _)) as (s2 & F2). fold cb in F2.
     destruct (filters_frag fs b1 a ext) as (s3 & F3).
     exists ([a] ++ s2 ++ [capA a] ++ s3 ++ [pushA TAny a]).
     eapply (F_seq p [Capture] _ _ (capA a) _ _ _ _ (S p)); [| |cbn [length]; lia|reflexivity].
@@ -409,9 +616,9 @@ Proof.
     { apply (F_step _ _ _ (pushA TAny a)); [destruct a; reflexivity|apply astate_sub_refl]. }
     eapply (F_seq b1 (compile_filters b1 fs) _ _ (pushA TAny a) [if g then SetGlobal n else SetI n]); [exact F3| |reflexivity|reflexivity].
     apply (F_step _ _ _ a); [destruct g, a; reflexivity|apply astate_sub_refl].
-  - (* filter section *) cbn [wf_stmt] in Hwf. apply andb_prop in Hwf as [_ Hwb]. cbn [compile_node].
+  - (* filter section *) cbn [brk_stmt] in Hwf. pose proof Hwf as Hwb. cbn [compile_node].
     set (cb := compile_seq compile_node (S p) lp b). set (b1 := S p + length cb + 1).
-    destruct (seq_frag b H okn lex false Hwb (S p) lp (capA a) ext (Ctx_false _ _ _)) as (s2 & F2). fold cb in F2.
+    destruct (seq_frag b H false Hwb (S p) lp (capA a) ext (Ctx_false _ _ _)) as (s2 & F2). fold cb in F2.
     destruct (kwargs_frag kw b1 (pushA TAny a) ext) as (s3 & F3).
     exists ([a] ++ s2 ++ [capA a] ++ s3 ++ [pushA TMap (pushA TAny a)] ++ [pushA TAny a]).
     eapply (F_seq p [Capture] _ _ (capA a) _ _ _ _ (S p)); [| |cbn [length]; lia|reflexivity].
@@ -425,23 +632,53 @@ Proof.
     + apply (F_step _ _ _ (pushA TAny a)); [destruct a; reflexivity|apply astate_sub_refl].
     + apply (F_step _ _ _ a); [destruct a; reflexivity|apply astate_sub_refl].
   - (* include *) exists [a]. apply (F_step _ _ _ a); [destruct a; reflexivity|apply astate_sub_refl].
-  - (* break *) cbn [wf_stmt] in Hwf. destruct (HC Hwf) as (start & lend & lo' & _ & Hl & _ & Hin).
+  - (* break *) cbn [brk_stmt] in Hwf. destruct (HC Hwf) as (start & lend & lo' & _ & Hl & _ & Hin).
     exists [a]. apply (F_goto _ _ _ lend a); [|exact Hin].
     destruct a as [st lo ca]. cbn in Hl. subst lo. reflexivity.
-  - (* continue *) cbn [wf_stmt] in Hwf. destruct (HC Hwf) as (start & lend & lo' & -> & _ & Hin & _).
+  - (* continue *) cbn [brk_stmt] in Hwf. destruct (HC Hwf) as (start & lend & lo' & -> & _ & Hin & _).
     exists [a]. apply (F_goto _ _ _ start a); [reflexivity|exact Hin].
 Qed.
 
-(* compile_always_checks: every well-formed statement list compiles to a chunk with an
-   accepted table *)
-Theorem compile_always_checks : forall okn ss, wf_body okn ss = true ->
+(* compile_always_checks: every statement list whose break/continue are placed as the parser
+   requires compiles to a chunk with an accepted table *)
+Theorem compile_always_checks : forall ss, brk_body ss = true ->
   exists tbl, check_table (compile ss) a_empty tbl = true.
 Proof.
-  intros okn ss Hwf. unfold compile.
+  intros ss Hwf. unfold compile.
   assert (HF : Forall SF ss) by (apply Forall_forall; intros s _; apply stmt_frag).
-  destruct (seq_frag ss HF okn false false Hwf 0 None a_empty [] (Ctx_false _ _ _)) as (sg & F).
+  destruct (seq_frag ss HF false Hwf 0 None a_empty [] (Ctx_false _ _ _)) as (sg & F).
   exists (map Some (sg ++ [a_empty])). exact (Frag_check_table _ _ F).
 Qed.
+
+(* wf_stmt (the hypothesis of C03's compile_correct) implies brk_stmt *)
+Lemma wf_brk_list (l : list stmt) :
+  Forall (fun s => forall okn lex brk, wf_stmt okn lex brk s = true -> brk_stmt brk s = true) l ->
+  forall okn lex brk, forallb (wf_stmt okn lex brk) l = true -> forallb (brk_stmt brk) l = true.
+Proof.
+  induction 1 as [|s t Hs _ IH]; intros okn lex brk Hw; [reflexivity|]. cbn [forallb] in *.
+  apply andb_prop in Hw as [H1 H2]. rewrite (Hs _ _ _ H1), (IH _ _ _ H2). reflexivity.
+Qed.
+
+Lemma wf_brk : forall s okn lex brk, wf_stmt okn lex brk s = true -> brk_stmt brk s = true.
+Proof.
+  induction s using stmt_ind'; intros okn lex brk Hwf; cbn [wf_stmt brk_stmt] in *; try reflexivity; try exact Hwf.
+  - apply andb_prop in Hwf as [Hwf H2]. apply andb_prop in Hwf as [_ H1].
+    rewrite (wf_brk_list _ H _ _ _ H1), (wf_brk_list _ H0 _ _ _ H2). reflexivity.
+  - apply andb_prop in Hwf as [Hwf H2]. apply andb_prop in Hwf as [_ H1].
+    rewrite (wf_brk_list _ H _ _ _ H1), (wf_brk_list _ H0 _ _ _ H2). reflexivity.
+  - apply andb_prop in Hwf as [H1 _]. exact (wf_brk_list _ H _ _ _ H1).
+  - apply andb_prop in Hwf as [_ H1]. exact (wf_brk_list _ H _ _ _ H1).
+Qed.
+
+Lemma wf_body_brk okn ss : wf_body okn ss = true -> brk_body ss = true.
+Proof.
+  unfold wf_body, brk_body. apply wf_brk_list. apply Forall_forall. intros s _. apply wf_brk.
+Qed.
+
+(* the same for the trees compile_correct (C03) is about *)
+Theorem compile_always_checks_wf : forall okn ss, wf_body okn ss = true ->
+  exists tbl, check_table (compile ss) a_empty tbl = true.
+Proof. intros okn ss H. exact (compile_always_checks ss (wf_body_brk okn ss H)). Qed.
 
 (* ---------- closed corollary: compiled code never underflows and ends balanced ---------- *)
 From TeraV Require Import Proofs.StackCheckProofs.
@@ -449,7 +686,7 @@ From TeraV Require Import Proofs.StackCheckProofs.
 Theorem compiled_sound :
   forall (W : Type) (wr : W -> str -> option W) (wd : world) (reg : registry),
   world_respects wd reg -> world_checked reg wd = true ->
-  forall okn ss, wf_body okn ss = true -> refs_resolved reg wd (compile ss) = true ->
+  forall ss, brk_body ss = true -> refs_resolved reg wd (compile ss) = true ->
   forall fuel tpl ae depth s o,
   template_good reg wd tpl = true -> blocks_good wd reg s ->
   match run W wr wd fuel tpl ae depth (compile ss) 0 s o with
@@ -460,7 +697,7 @@ Theorem compiled_sound :
       length (caps s') = length (caps s) /\ blocks s' = blocks s /\ cur_block s' = cur_block s
   end.
 Proof.
-  intros W wr wd reg Hreg Hwd okn ss Hwf Hrefs fuel tpl ae depth s o HT HB.
-  destruct (compile_always_checks okn ss Hwf) as (tbl & Htbl).
+  intros W wr wd reg Hreg Hwd ss Hwf Hrefs fuel tpl ae depth s o HT HB.
+  destruct (compile_always_checks ss Hwf) as (tbl & Htbl).
   exact (table_sound W wr wd reg Hreg Hwd fuel tpl ae depth (compile ss) tbl s o HT Htbl Hrefs HB).
 Qed.
